@@ -158,3 +158,39 @@ Definition emit (mode : rmode) (desc : bool) (kv : bytes * versions) : list entr
 Definition mv_scan (s : rspec) (mode : rmode) (m : mvmap) : list entry :=
   flat_map (emit mode (rs_desc s))
     (skipn (N.to_nat (rs_offset s)) (filter (selected s) (if rs_desc s then rev m else m))).
+
+(* ---- the same reader, read operationally (this is what Reader.Read does key by key, with the
+   fields of the Reader AFTER Snapshot.NewReader adjusted seek/end keys to the prefix):
+   start at the first key on the right side of the seek key, then per key: skip the seek key
+   itself unless inclusive, stop at the first key beyond the end key, skip keys without the
+   prefix, skip the first [offset] remaining keys.  MVMapProofs.mv_walk_scan shows that for
+   well-formed keys this is mv_scan of the original ReaderSpec. ---- *)
+Fixpoint drop_until {A} (f : A -> bool) (l : list A) : list A :=
+  match l with
+  | [] => []
+  | x :: r => if f x then l else drop_until f r
+  end.
+
+Definition beyond_end (s : rspec) (k : bytes) : bool :=
+  if rs_desc s
+  then blt k (rs_end s) || (beq (rs_end s) k && negb (rs_incl_end s))
+  else blt (rs_end s) k || (beq (rs_end s) k && negb (rs_incl_end s)).
+
+Fixpoint mv_walk_keys (s : rspec) (l : mvmap) (skipped : N) : mvmap :=
+  match l with
+  | [] => []
+  | kv :: r =>
+      let k := fst kv in
+      if negb (rs_incl_seek s) && beq (rs_seek s) k then mv_walk_keys s r skipped
+      else if negb (is_nil (rs_end s)) && beyond_end s k then []
+      else if negb (is_nil (rs_prefix s)) && negb (has_prefix (rs_prefix s) k) then mv_walk_keys s r skipped
+      else if skipped <? rs_offset s then mv_walk_keys s r (skipped + 1)
+      else kv :: mv_walk_keys s r skipped
+  end.
+
+Definition mv_stream (s : rspec) (m : mvmap) : mvmap :=
+  if rs_desc s then drop_until (fun kv => ble (fst kv) (rs_seek s)) (rev m)
+  else drop_until (fun kv => ble (rs_seek s) (fst kv)) m.
+
+Definition mv_walk (s : rspec) (mode : rmode) (m : mvmap) : list entry :=
+  flat_map (emit mode (rs_desc s)) (mv_walk_keys s (mv_stream s m) 0).
